@@ -29,7 +29,7 @@ TRUSTED_BASE = [
     "Coq 8.16.1 kernel (coqc, full .vo build; vm_compute used in *_refuted witnesses and finite side conditions; no native_compute)",
     "axioms: none (Print Assumptions of every property theorem must say 'Closed under the global context')",
     "extraction: ExtrOcamlBasic only (bool, option, unit, list, prod, sumbool, sumor -> OCaml; andb/orb inlined); nat/N/Z/positive/string stay Coq datatypes; no Extract Constant/Inductive of our own",
-    "ocaml/main.ml glue: s-expression tokeniser, number and string conversion, printing (unverified)",
+    "ocaml/main.ml glue: s-expression tokeniser, number and string conversion, printing (unverified; a seeded sample of the observation lines of every run — 5% in the thorough tier — is re-evaluated by coqc with vm_compute and must give the extracted evaluator's verdicts: coverage.reevaluated_in_coqc)",
     "harness (Go): package generators, drivers, serialisation, canonicalisation (unverified)",
     "modelled, not verified: the Go compiler/runtime/reflect, go/types, x/tools loader, go/format, fmt, sort, strings, bytes, OS file API; the hand transcription of each plugin into Gallina (checked by the correspondence run)",
 ]
@@ -166,7 +166,117 @@ def build_go(scratch, need_harness=True, tags="verif"):
     return gd, hb, ""
 
 
+# ---- re-evaluation of a sample of the observations inside coqc (vm_compute on the same Gallina
+# definitions the extracted evaluator was produced from): cross-checks extraction + the OCaml glue.
+TIER = "quick"
+SEED = 1
+RECHECK_POOL = []   # (prop, observation line, verdict dict)
+
+
+def _sexp_tokens(s):
+    out, i, n = [], 0, len(s)
+    while i < n:
+        c = s[i]
+        if c in " \t":
+            i += 1
+        elif c in "()":
+            out.append(c)
+            i += 1
+        else:
+            j = i
+            while j < n and s[j] not in " \t()":
+                j += 1
+            out.append(s[i:j])
+            i = j
+    return out
+
+
+def sexp_to_coq(line):
+    """The observation line as a Coq term of type sexp (same token rules as ocaml/main.ml)."""
+    toks = _sexp_tokens(line)
+    pos = 0
+
+    def atom(t):
+        if re.fullmatch(r"-?[0-9]+", t):
+            return "Num (%s)%%Z" % t
+        return 'Sym "%s"' % t.replace('"', '""')
+
+    def parse():
+        nonlocal pos
+        t = toks[pos]
+        pos += 1
+        if t == "(":
+            items = []
+            while toks[pos] != ")":
+                items.append(parse())
+            pos += 1
+            return "L [" + "; ".join(items) + "]"
+        if t == ")":
+            raise ValueError("unbalanced")
+        return atom(t)
+    term = parse()
+    if pos != len(toks):
+        raise ValueError("trailing tokens")
+    return term
+
+
+def recheck_in_coq(pool, scratch):
+    """Returns (number re-evaluated, list of mismatch descriptions)."""
+    if not pool:
+        return 0, []
+    bad = []
+    done = 0
+    SH = 250
+    for k in range(0, len(pool), SH):
+        shard = pool[k:k + SH]
+        items = []
+        for (prop, line, v) in shard:
+            b = lambda x: "true" if x else "false"
+            items.append('(%s, "%s", (%s, %s, %s, %s), "%s")' % (
+                sexp_to_coq(line), prop, b(v["known"]), b(v["model_ok"]), b(v["spec_ok"]), b(v["guard"]),
+                v["tag"].replace('"', '""')))
+        src = ("From Verif Require Import Base Sexp Eval.\nOpen Scope string_scope.\n"
+               "Definition cases : list (sexp * string * (bool * bool * bool * bool) * string) := [\n" + ";\n".join(items) + "].\n"
+               "Definition agrees (c : sexp * string * (bool * bool * bool * bool) * string) : bool :=\n"
+               "  let '(e, prop, (k, m, sp, g), tag) := c in let v := eval_obs prop e in\n"
+               "  Bool.eqb (v_known v) k && (negb k || (Bool.eqb (v_model_ok v) m && Bool.eqb (v_spec_ok v) sp && Bool.eqb (v_guard v) g && String.eqb (v_tag v) tag)).\n"
+               "Fixpoint bad (i : nat) (l : list (sexp * string * (bool * bool * bool * bool) * string)) : list nat :=\n"
+               "  match l with [] => [] | c :: r => if agrees c then bad (S i) r else i :: bad (S i) r end.\n"
+               "Definition M := Eval vm_compute in bad 0 cases.\nPrint M.\n")
+        f = os.path.join(scratch, "Recheck%d.v" % (k // SH))
+        open(f, "w").write(src)
+        rc, out = run(["coqc", "-R", os.path.join(COQ, "theories"), "Verif", "-o", f[:-2] + ".vo", f], timeout=3600)
+        m = re.search(r"M\s*=\s*\[(.*?)\]", out, re.S)
+        if rc != 0 or not m:
+            bad.append({"what": "re-evaluation file does not compile", "log": out[-1500:]})
+            continue
+        done += len(shard)
+        idx = [int(x) for x in re.findall(r"\d+", m.group(1))]
+        for i in idx[:5]:
+            prop, line, v = shard[i]
+            bad.append({"what": "coqc (vm_compute) and the extracted evaluator disagree on this observation", "prop": prop,
+                        "observation": line[:2000], "extracted_verdict": v})
+    return done, bad
+
+
 def modeleval(pid, obs_path):
+    res = _modeleval(pid, obs_path)
+    try:
+        import random
+        rnd = random.Random("%d/%s/%s" % (SEED, pid, os.path.basename(obs_path)))
+        lines = open(obs_path).read().splitlines()
+        want = 12 if TIER == "quick" else max(40, len(res) // 20)
+        have = sum(1 for x in RECHECK_POOL if x[0] == pid)
+        cap = 36 if TIER == "quick" else 3000
+        for v in rnd.sample(res, min(want, len(res), max(0, cap - have))):
+            if v["line"] - 1 < len(lines) and len(lines[v["line"] - 1]) < 20000:
+                RECHECK_POOL.append((pid, lines[v["line"] - 1], v))
+    except Exception as e:  # sampling must never break a check
+        RECHECK_POOL.append((pid, "(sampling-error %s)" % type(e).__name__, {"known": False, "model_ok": False, "spec_ok": False, "guard": False, "tag": ""}))
+    return res
+
+
+def _modeleval(pid, obs_path):
     exe = os.path.join(VERIF, "ocaml", "modeleval")
     with open(obs_path) as f:
         p = subprocess.run([exe, pid], stdin=f, stdout=subprocess.PIPE, stderr=subprocess.PIPE, text=True, timeout=3600)
@@ -226,6 +336,17 @@ class Report:
         self.broken.append({"what": what, "detail": detail})
 
     def finish(self):
+        global RECHECK_POOL
+        if RECHECK_POOL:
+            d = tempfile.mkdtemp(prefix="verif-recheck-", dir=os.environ.get("VERIF_SCRATCH", "/tmp"))
+            try:
+                n, bad = recheck_in_coq(RECHECK_POOL, d)
+            finally:
+                shutil.rmtree(d, ignore_errors=True)
+            RECHECK_POOL = []
+            self.coverage["reevaluated_in_coqc"] = n
+            for b in bad:
+                self.add_broken("extracted evaluator vs coqc", b)
         wall = time.time() - self.t0
         replay_dir = os.path.join(VERIF, "replay", self.pid)
         lines = []
@@ -395,6 +516,8 @@ def main(argv, table):
     if tier not in ("quick", "thorough"):
         print("usage: check <ID> <quick|thorough>")
         return 2
+    global TIER, SEED
+    TIER, SEED = tier, seed
     mod = os.path.join(VERIF, "lib", "checks", pid.lower() + ".py")
     if os.path.exists(mod):
         import importlib.util
